@@ -66,13 +66,20 @@ CellsByVerts(S) == K(S)
 ---------------------------------------------------------------------------
 \* LEVEL 1 (elements) recomputed from the raw representation
 
+L1a(S) == Cardinality(VIds(S)) = Len(S.verts)
+L1b(S) == \A r \in VRecs(S) : Len(r.m) = S.D
+L1c(S) == \A c \in CRecs(S) : Len(c.vs) = S.D + 1
+L1d(S) == \A c \in CRecs(S) : Cardinality(CellSet(c)) = Len(c.vs)
+L1e(S) == \A c \in CRecs(S) : Len(c.nb) = S.D + 1
+L1f(S) == S.nv = Len(S.verts) /\ S.nc = Len(S.cells)
+Level1Q(S) == L1a(S) /\ L1b(S) /\ L1c(S) /\ L1d(S) /\ L1e(S) /\ L1f(S)
 Level1(S) ==
-  /\ Chk("L1.vertex ids distinct", Cardinality(VIds(S)) = Len(S.verts))
-  /\ Chk("L1.vertex dimension", \A r \in VRecs(S) : Len(r.m) = S.D)
-  /\ Chk("L1.cell arity", \A c \in CRecs(S) : Len(c.vs) = S.D + 1)
-  /\ Chk("L1.cell vertices distinct", \A c \in CRecs(S) : Cardinality(CellSet(c)) = Len(c.vs))
-  /\ Chk("L1.neighbour buffer length", \A c \in CRecs(S) : Len(c.nb) = S.D + 1)
-  /\ Chk("L1.counts", S.nv = Len(S.verts) /\ S.nc = Len(S.cells))
+  /\ Chk("L1.vertex ids distinct", L1a(S))
+  /\ Chk("L1.vertex dimension", L1b(S))
+  /\ Chk("L1.cell arity", L1c(S))
+  /\ Chk("L1.cell vertices distinct", L1d(S))
+  /\ Chk("L1.neighbour buffer length", L1e(S))
+  /\ Chk("L1.counts", L1f(S))
 
 \* parity (0 even / 1 odd) of the permutation taking sequence s to sequence t
 \* (same elements)
@@ -106,15 +113,22 @@ CoherentOrientation(S) ==
             IN  \* induced orientations on the shared facet are opposite
                 (PermParity(fc, fd) + i + j) % 2 = 1
 
+L2a(S) == Cardinality(CIds(S)) = Len(S.cells)
+L2b(S) == \A c \in CRecs(S) : CellSet(c) \subseteq VIds(S)
+L2c(S) == Cardinality(K(S)) = Len(S.cells)
+L2d(S) == \A f \in AllFacets(K(S)) : FacetDeg(K(S), f) <= 2
+L2e(S) == NeighbourSlotsOK(S)
+L2f(S) == \A r \in VRecs(S) : r.inc = 0 \/ (r.inc \in CIds(S) /\ r.id \in CellSet(CRec(S, r.inc)))
+L2g(S) == CoherentOrientation(S)
+Level2Q(S) == L2a(S) /\ L2b(S) /\ L2c(S) /\ L2d(S) /\ L2e(S) /\ L2f(S) /\ L2g(S)
 Level2(S) ==
-  /\ Chk("L2.cell ids distinct", Cardinality(CIds(S)) = Len(S.cells))
-  /\ Chk("L2.cell vertices live", \A c \in CRecs(S) : CellSet(c) \subseteq VIds(S))
-  /\ Chk("L2.no duplicate cells", Cardinality(K(S)) = Len(S.cells))
-  /\ Chk("L2.facet degree <= 2", \A f \in AllFacets(K(S)) : FacetDeg(K(S), f) <= 2)
-  /\ Chk("L2.neighbour slots", NeighbourSlotsOK(S))
-  /\ Chk("L2.incident cells",
-         \A r \in VRecs(S) : r.inc = 0 \/ (r.inc \in CIds(S) /\ r.id \in CellSet(CRec(S, r.inc))))
-  /\ Chk("L2.coherent orientation", CoherentOrientation(S))
+  /\ Chk("L2.cell ids distinct", L2a(S))
+  /\ Chk("L2.cell vertices live", L2b(S))
+  /\ Chk("L2.no duplicate cells", L2c(S))
+  /\ Chk("L2.facet degree <= 2", L2d(S))
+  /\ Chk("L2.neighbour slots", L2e(S))
+  /\ Chk("L2.incident cells", L2f(S))
+  /\ Chk("L2.coherent orientation", L2g(S))
 
 ---------------------------------------------------------------------------
 \* LEVEL 3 (manifold topology at the configured strength) + geometric orientation
@@ -132,14 +146,22 @@ GeometricOrientationOK(S) ==
       /\ \A c, d \in dec : CellOrient(S, c) = CellOrient(S, d)
 
 Level3(S, g) ==
-  /\ Chk("L3.ball at strength", BallAt(K(S), NN(S), VIds(S), g))
+  LET KK == K(S) n == NN(S) IN
+  /\ Chk("L3.at least one cell", KK # {})
+  /\ Chk("L3.facet degree in {1,2}", FacetDegOK(KK))
+  /\ Chk("L3.connected", DualConnected(KK))
+  /\ Chk("L3.boundary non-empty and closed", Boundary(KK) # {} /\ ClosedBoundary(KK))
+  /\ Chk("L3.no isolated vertex", Verts(KK) = VIds(S))
+  /\ Chk("L3.Euler characteristic 1", Euler(KK, n) = 1)
+  /\ Chk("L3.ridge links", g \in {"PLManifold", "PLManifoldStrict"} => RidgeLinksOK(KK, n))
+  /\ Chk("L3.vertex links", g = "PLManifoldStrict" => VertexLinksOK(KK, n))
   /\ Chk("L3.geometric orientation", GeometricOrientationOK(S))
 
 Bootstrap(S) == Len(S.verts) < S.D + 1 /\ Len(S.cells) = 0
 
 \* "the validity stack": Levels 1-3 recomputed; g = strength to demand
 ValidStack(S, g) == Level1(S) /\ Level2(S) /\ Level3(S, g)
-StackOrBootstrap(S, g) == Level1(S) /\ (Bootstrap(S) \/ (Level2(S) /\ Level3(S, g)))
+StackOrBootstrap(S, g) == Level1(S) /\ (IF Bootstrap(S) THEN TRUE ELSE Level2(S) /\ Level3(S, g))
 
 \* the strength a *finished construction* certifies (validate_at_completion adds
 \* vertex links for PLManifold)
@@ -155,37 +177,47 @@ SetToSeq(T) == IF T = {} THEN <<>>
                ELSE LET x == CHOOSE y \in T : \A z \in T : y <= z
                     IN  <<x>> \o SetToSeq(T \ {x})
 
+EmbDec(S, T) == ~(\E v \in T : v \in PertSet(S))
+EmbSide(S, f, v) == Side(Pts(Pos(S), SetToSeq(f)), Pos(S)[v])
+
+\* adjacent cells lie strictly on opposite sides of their common facet
+EmbOpposite(S) ==
+  LET KK == K(S) IN
+  \A f \in AllFacets(KK) :
+    LET cs == CellsWith(KK, f) IN
+    Cardinality(cs) = 2 =>
+      LET a == CHOOSE c \in cs : TRUE
+          b == CHOOSE c \in cs : c # a
+          sa == EmbSide(S, f, ApexOf(a, f))
+          sb == EmbSide(S, f, ApexOf(b, f))
+      IN  (sa * sb < 0) \/ (~EmbDec(S, a \cup b) /\ sa * sb = 0)
+
+\* every boundary facet lies on a supporting hyperplane of the whole vertex set
+EmbConvex(S) ==
+  LET KK == K(S) IN
+  \A f \in Boundary(KK) :
+    LET c  == CHOOSE c \in CellsWith(KK, f) : TRUE
+        sa == EmbSide(S, f, ApexOf(c, f))
+    IN  \A v \in VIds(S) : EmbSide(S, f, v) * sa >= 0 \/ (~EmbDec(S, c \cup {v}) /\ sa = 0)
+
+\* degree one: the centroid of every cell lies in the closed simplex of no other
+\* cell (coordinates scaled by D+1 so the centroid is integral)
+EmbNoOverlap(S) ==
+  LET KK == K(S) P == Pos(S) IN
+  \A c \in KK :
+    LET n == Cardinality(c)
+        ctr == VSum(Pts(P, SetToSeq(c)))
+    IN  \A d \in KK \ {c} :
+          EmbDec(S, d \cup c) =>
+            ~InClosedSimplex([i \in 1..n |-> Scale(P[SetToSeq(d)[i]], n)], ctr)
+
+\* silent version (used in antecedents and diagnostics)
+EmbeddedQ(S) == EmbOpposite(S) /\ EmbConvex(S) /\ EmbNoOverlap(S)
+
 Embedded(S) ==
-  LET P  == Pos(S)
-      KK == K(S)
-      dec(T) == ~(\E v \in T : v \in PertSet(S))
-      side(f, v) == Side(Pts(P, SetToSeq(f)), P[v])
-  IN
-  \* adjacent cells lie strictly on opposite sides of their common facet
-  /\ Chk("EMB.neighbours on opposite sides",
-       \A f \in AllFacets(KK) :
-         LET cs == CellsWith(KK, f) IN
-         Cardinality(cs) = 2 =>
-           LET a == CHOOSE c \in cs : TRUE
-               b == CHOOSE c \in cs : c # a
-               sa == side(f, ApexOf(a, f))
-               sb == side(f, ApexOf(b, f))
-           IN  (sa * sb < 0) \/ (~dec(a \cup b) /\ sa * sb = 0))
-  \* every boundary facet lies on a supporting hyperplane of the whole vertex set
-  /\ Chk("EMB.convex boundary",
-       \A f \in Boundary(KK) :
-         LET c  == CHOOSE c \in CellsWith(KK, f) : TRUE
-             sa == side(f, ApexOf(c, f))
-         IN  \A v \in VIds(S) : side(f, v) * sa >= 0 \/ (~dec(c \cup {v}) /\ sa = 0))
-  \* degree one: the centroid of every cell lies in the closed simplex of no other
-  \* cell (coordinates scaled by D+1 so the centroid is integral)
-  /\ Chk("EMB.no overlap",
-       \A c \in KK :
-         LET n == Cardinality(c)
-             ctr == VSum(Pts(P, SetToSeq(c)))
-         IN  \A d \in KK \ {c} :
-               dec(d \cup c) =>
-                 ~InClosedSimplex([i \in 1..n |-> Scale(P[SetToSeq(d)[i]], n)], ctr))
+  /\ Chk("EMB.neighbours on opposite sides", EmbOpposite(S))
+  /\ Chk("EMB.convex boundary", EmbConvex(S))
+  /\ Chk("EMB.no overlap", EmbNoOverlap(S))
 
 \* C01/C04/C08: no vertex strictly inside the circumsphere of any cell.
 \* A non-zero integer in-sphere determinant at the home coordinates is decisive
@@ -196,6 +228,23 @@ StrictViolations(S) ==
   UNION {{<<c.id, v>> : v \in {w \in VIds(S) \ CellSet(c) :
                                  InSphere(Pts(P, c.vs), P[w]) > 0}} : c \in CRecs(S)}
 NoStrictlyInside(S) == StrictViolations(S) = {}
+
+\* diagnostics printed next to a failed conjunct (used to recognise known findings)
+ViolatorClass(S) ==
+  LET V == StrictViolations(S)
+      adj(p) == \E d \in CRecs(S) :
+                  /\ d.id # p[1] /\ p[2] \in CellSet(d)
+                  /\ Cardinality(CellSet(d) \cap CellSet(CRec(S, p[1]))) = S.D
+  IN  IF V = {} THEN "none"
+      ELSE IF \A p \in V : adj(p) THEN "adjacent-only"
+      ELSE IF \E p \in V : adj(p) THEN "mixed"
+      ELSE "nonlocal-only"
+ChkNSI(name, S) ==
+  IF NoStrictlyInside(S) THEN TRUE
+  ELSE /\ PrintT(<<"CONTRACT-FAIL", name>>)
+       /\ PrintT(<<"DIAG", "violators", ViolatorClass(S)>>)
+       /\ PrintT(<<"DIAG", "convex", IF EmbConvex(S) THEN "yes" ELSE "no">>)
+       /\ FALSE
 
 \* General position of the home coordinates: no D+1 points on a hyperplane,
 \* no D+2 points on a sphere.
@@ -252,7 +301,7 @@ ConstructOK(a, r, post) ==
   /\ Level2(post)
   /\ Level3(post, CompletionStrength(g))
   /\ Embedded(post)
-  /\ Chk("C01.no vertex strictly inside a circumsphere", NoStrictlyInside(post))
+  /\ ChkNSI("C01.no vertex strictly inside a circumsphere", post)
   /\ Chk("C01.vertices are inputs",
          \A v \in VRecs(post) : \E x \in inputs : ImageOf(v, x))
   /\ Chk("C01.inserted count", r.inserted < 0 \/ r.inserted = Len(post.verts))
@@ -278,8 +327,7 @@ InsertInserted(pre, a, r, post) ==
   /\ Chk("C02.key resolves", r.key_ok)
   /\ Chk("C02.policies unchanged", post.cfg = pre.cfg)
   /\ StackOrBootstrap(post, post.cfg.g)
-  /\ Chk("C02.check policy => Delaunay",
-         post.cfg.cp = "EveryN1" /\ ~Bootstrap(post) => NoStrictlyInside(post))
+  /\ (post.cfg.cp = "EveryN1" /\ ~Bootstrap(post) => ChkNSI("C02.check policy => Delaunay", post))
   /\ Chk("C09.not a coordinate duplicate", a.cls = "far" \/ ~DupCertain(pre, a.m))
   /\ Chk("C09.uuid not reused", a.u \notin VIds(pre))
 
@@ -306,9 +354,10 @@ Remove(pre, a, r, post) ==
      /\ Chk("C06.others kept", OthersKept(pre, post, {a.v}))
      /\ Chk("C06.policies unchanged", post.cfg = pre.cfg)
      /\ Chk("C06.removed count", r.n = Cardinality({c \in CRecs(pre) : a.v \in CellSet(c)}))
-     /\ StackOrBootstrap(post, post.cfg.g)
-     /\ Chk("C06.repair enabled => Delaunay",
-            post.cfg.rp # "Never" /\ ~Bootstrap(post) => NoStrictlyInside(post))
+     /\ Chk("C06.all cells vanished",
+            ~(Len(post.cells) = 0 /\ Len(post.verts) >= post.D + 1))
+     /\ (IF Len(post.cells) = 0 THEN Level1(post) ELSE StackOrBootstrap(post, post.cfg.g))
+     /\ (post.cfg.rp # "Never" /\ Len(post.cells) > 0 => ChkNSI("C06.repair enabled => Delaunay", post))
   \/ /\ r.kind = "Ok" /\ a.v \notin VIds(pre)
      /\ Chk("C06.unknown vertex is a no-op", r.n = 0 /\ Obs(post) = Obs(pre))
   \/ /\ r.kind = "Err"
@@ -374,9 +423,10 @@ RepairOK(pre, a, r, post) ==
   /\ Chk("C08.same vertices", SameVertexRecords(pre, post))
   /\ Chk("C08.policies unchanged", post.cfg = pre.cfg)
   /\ ValidStack(post, post.cfg.g)
-  /\ Chk("C08.empty circumspheres", NoStrictlyInside(post))
+  /\ ChkNSI("C08.empty circumspheres", post)
   /\ Chk("C08.general position => the Delaunay triangulation",
-         Len(post.verts) <= a.gpmax /\ GeneralPosition(post) => K(post) = DelaunayCells(post))
+         Len(post.verts) <= a.gpmax /\ EmbeddedQ(pre) /\ GeneralPosition(post)
+           => K(post) = DelaunayCells(post))
 
 Repair(pre, a, r, post) ==
   \/ r.kind = "Ok" /\ RepairOK(pre, a, r, post)
@@ -385,22 +435,19 @@ Repair(pre, a, r, post) ==
 \* ---- C04 : what the validators' verdicts mean ----------------------------------
 \* r carries the verdicts of the library on the (unchanged) state S.
 Verdicts(S, r) ==
-  LET structurallyValid == Level1(S) /\ Level2(S) /\ BallAt(K(S), NN(S), VIds(S), S.cfg.g)
+  LET structurallyValid == Level1Q(S) /\ Level2Q(S) /\ BallAt(K(S), NN(S), VIds(S), S.cfg.g)
                            /\ GeometricOrientationOK(S)
   IN
-  /\ Chk("C04.is_valid accepts => empty circumspheres",
-         r.is_valid /\ structurallyValid => NoStrictlyInside(S))
-  /\ Chk("C04.validate accepts => empty circumspheres", r.validate => NoStrictlyInside(S))
-  /\ Chk("C04.empty report => empty circumspheres", r.report_empty => NoStrictlyInside(S))
-  /\ Chk("C04.flip verifier accepts => empty circumspheres",
-         r.via_flips /\ structurallyValid => NoStrictlyInside(S))
-  /\ Chk("C04.brute force finds nothing => empty circumspheres",
-         r.brute = 0 /\ structurallyValid => NoStrictlyInside(S))
+  /\ (r.is_valid /\ structurallyValid => ChkNSI("C04.is_valid accepts => empty circumspheres", S))
+  /\ (r.validate => ChkNSI("C04.validate accepts => empty circumspheres", S))
+  /\ (r.report_empty => ChkNSI("C04.empty report => empty circumspheres", S))
+  /\ (r.via_flips /\ structurallyValid => ChkNSI("C04.flip verifier accepts => empty circumspheres", S))
+  /\ (r.brute = 0 /\ structurallyValid => ChkNSI("C04.brute force finds nothing => empty circumspheres", S))
   /\ Chk("C04.cumulative = conjunction", r.validate = r.report_empty)
   /\ Chk("C04.validate => levels", r.validate => r.is_valid /\ r.tri_valid /\ r.tds_valid)
   \* completeness: in general position the genuine Delaunay triangulation is accepted
   /\ Chk("C04.genuine Delaunay triangulation rejected",
          Len(S.verts) <= r.gpmax /\ structurallyValid /\ PertSet(S) = {}
-         /\ GeneralPosition(S) /\ K(S) = DelaunayCells(S) /\ Embedded(S)
+         /\ GeneralPosition(S) /\ K(S) = DelaunayCells(S) /\ EmbeddedQ(S)
            => r.is_valid /\ r.via_flips /\ r.brute = 0)
 =============================================================================
